@@ -55,12 +55,38 @@ def make_isotherm(spec):
     return iso
 
 
+def _monolith(d):
+    """A Material subclass whose density is computed (envelope density of a shaped body) instead of stored."""
+    import pygaps
+
+    class Monolith(pygaps.Material):
+        @property
+        def density(self):
+            return self.properties["skeletal_density"] * (1 - self.properties["porosity"])
+
+    d = dict(d)
+    d.pop("__class__")
+    return Monolith(d.pop("name"), **d)
+
+
+def _cell(x):
+    """A reading a JSON spec cannot carry as such: {"__py__": "bytes"|"decimal"} stands for such a Python object."""
+    if isinstance(x, dict) and "__py__" in x:
+        if x["__py__"] == "bytes":
+            return b"xy"
+        import decimal
+        return decimal.Decimal("1.5")
+    return x
+
+
 def _make_isotherm(spec):
     import pandas
     import pygaps
     from pygaps.core.baseisotherm import BaseIsotherm
     kind = spec["kind"]
     material = copy.deepcopy(spec["material"])
+    if isinstance(material, dict) and material.get("__class__") == "Monolith":
+        material = _monolith(material)
     common = dict(material=material, adsorbate=spec["adsorbate"], temperature=spec["temperature"])
     common.update(copy.deepcopy(spec.get("units", {})))
     meta = copy.deepcopy(spec.get("meta", {}))
@@ -81,7 +107,7 @@ def _make_isotherm(spec):
         pk, lk = spec.get("keys", ["pressure", "loading"])
         cols = {pk: list(spec["pressure"]), lk: list(spec["loading"])}
         for k, v in other.items():
-            cols[k] = list(v)
+            cols[k] = [_cell(x) for x in v]
         if isinstance(branch, list) and spec.get("branch_in_frame", False):
             cols["branch"] = list(branch)
             df = pandas.DataFrame(cols)
